@@ -171,7 +171,7 @@ REGISTRY = {
     "C13": {"flavours": Q3, "suites": [], "step_suites": [("fault", steps.suite_fault), ("retry", steps.suite_fault_retry), ("fsize", steps.suite_fsize), ("eintr", steps.suite_eintr)],
             "rule": "strace fault sweep: every system call (open/read/write/mkdir/rename/unlink/link/stat/getdents/...) that names a path inside the cache during write, write_hash, streamed open/chunk/commit, read, read_hash, metadata, copy, remove, remove_hash, list is made to fail once with EIO / ENOSPC / EACCES (thorough: + EMFILE); the call must answer an error or a truthful success (written data reads back, reads return the stored bytes, metadata/list do not silently lose entries), never panic/hang/die; afterwards content files hash to their paths, unnamed entries are unchanged (a temp file left by a failed call is counted, not alarmed on: the property names the content and index areas only); and the same call issued again without the fault succeeds; plus genuine short writes: the process's file-size limit is lowered during a streamed write (one write(2) short, the next EFBIG), the failed write() call is retried after the limit is lifted, and a commit that reports success must read back exactly the acknowledged bytes."},
     "C15": {"flavours": Q3, "suites": [("layouts", suite_layouts), ("damage_content", suite_damage_content)], "step_suites": [("confine", steps.suite_confine), ("chdir", steps.suite_chdir)],
-            "rule": "strace path audit: for hostile / confusable / random Unicode keys a 25-call program covering every kind of operation is traced; every mutating system call must name paths inside the cache root (extractions: or their destination), read-only calls must issue no mutating system call, path components under the cache are never empty, '.', '..' or contain NUL, components under index-v5 are hex, content files are never opened for writing in place, the working directory is untouched; plus differential programs on damaged content (every read-only entry point on entries whose content was flipped / truncated / replaced / removed: the tree afterwards is the model's, i.e. unchanged) and two cache-path layouts; extraction whose destination is an existing directory (an error: nothing below it is written), a key that is an absolute path into an existing directory elsewhere, extraction touching exactly its destination; and a relative cache path across a change of working directory (two caches named ./c: the calls on the second leave the first byte-for-byte unchanged)."},
+            "rule": "strace path audit: for hostile / confusable / random Unicode keys a 25-call program covering every kind of operation is traced; every mutating system call must name paths inside the cache root (extractions: or their destination), read-only calls must issue no mutating system call, path components under the cache are never empty, '.', '..' or contain NUL, components under index-v5 are hex, content files are never opened for writing in place, the working directory is untouched; plus differential programs on damaged content (every read-only entry point on entries whose content was flipped / truncated / replaced / removed: the tree afterwards is the model's, i.e. unchanged) and two cache-path layouts; a cache whose temp area is unusable (a regular file named tmp: writers fail and create nothing anywhere else), extraction whose destination is an existing directory (an error: nothing below it is written), a key that is an absolute path into an existing directory elsewhere, extraction touching exactly its destination; and a relative cache path across a change of working directory (two caches named ./c: the calls on the second leave the first byte-for-byte unchanged)."},
     "C11": {"flavours": Q3, "suites": [("meta", suite_meta), ("commit", suite_commit)],
             "rule": "several writes to one key with fields (data, time incl. 2^128-1, JSON metadata trees, raw bytes, declared size, single/multi-hash integrity) drawn from small pools so that successive records differ in one field or repeat earlier values, via streamed writers and index::insert, read back by metadata/find/list after each; bucket bytes compared byte for byte (explicit times); default time checked against the call's wall-clock window."},
     "C17": {"flavours": Q3, "suites": [("refwrites", suite_refwrites), ("refcache", suite_refcache), ("meta", suite_meta), ("hist", suite_hist)],
